@@ -73,7 +73,25 @@ type c01Step struct {
 	Accts *[]uint64 `json:"accts"`
 	Zero  []uint64  `json:"zero"`
 	Spe   uint64    `json:"spe"`
+	Inc   int       `json:"inc"`  // Fetch: the response is incomplete (1 no data, 2 no source, 3 no target checkpoint)
+	Kind  string    `json:"kind"` // what a failing interface fails with: other | deadline | canceled
 }
+
+// c01Err is the error a scripted failure returns: the context errors a slow / abandoned call ends with, or any other.
+func c01Err(st *c01Step, what string) error {
+	if st != nil {
+		switch st.Kind {
+		case "deadline":
+			return context.DeadlineExceeded
+		case "canceled":
+			return context.Canceled
+		}
+	}
+	return errors.New(what)
+}
+
+// c01IncSlot marks a response without data / source / target in the trace (Attester!Incomplete).
+const c01IncSlot = 1000000000
 
 type c01Scenario struct {
 	Sc       int       `json:"sc"`
@@ -125,7 +143,7 @@ func (a *c01Account) ID() uuid.UUID {
 	binary.BigEndian.PutUint64(u[8:], a.idx)
 	return u
 }
-func (a *c01Account) Name() string                { return fmt.Sprintf("verif/%d", a.idx) }
+func (a *c01Account) Name() string                 { return fmt.Sprintf("verif/%d", a.idx) }
 func (a *c01Account) PublicKey() e2types.PublicKey { return &c01PubKey{idx: a.idx} }
 
 func c01RootOf(k uint64, kind byte) phase0.Root {
@@ -192,16 +210,17 @@ func (c01Cache) BlockRootToSlot(_ context.Context, _ phase0.Root) (phase0.Slot, 
 
 // c01Harness holds one service instance and its fakes.
 type c01Harness struct {
-	t     *testing.T
-	tr    *verifsupport.Trace
-	sc    int
-	s     *Service
-	gated bool
-	mu    sync.Mutex
-	runs  map[int]*c01Run
-	rnd   *rand.Rand
-	dead  bool // (under the trace lock) the watchdog gave the instance up: nothing more is recorded
-	blind bool // (under the trace lock) Service.attested could not be read (attestedMu never came free)
+	t        *testing.T
+	tr       *verifsupport.Trace
+	sc       int
+	s        *Service
+	gated    bool
+	strategy bool // a real strategy sits between the service and the scripted nodes
+	mu       sync.Mutex
+	runs     map[int]*c01Run
+	rnd      *rand.Rand
+	dead     bool // (under the trace lock) the watchdog gave the instance up: nothing more is recorded
+	blind    bool // (under the trace lock) Service.attested could not be read (attestedMu never came free)
 }
 
 // c01HungBudget: after this many hung scenarios in one batch the remaining scenarios are not run (each
@@ -302,7 +321,24 @@ func (n *c01Node) AttestationData(ctx context.Context, opts *api.AttestationData
 		}
 	}
 	if fail {
-		return nil, errors.New("scripted node failure")
+		return nil, c01Err(st, "scripted node failure")
+	}
+	if st != nil && st.Inc > 0 {
+		// the node answers, without an error, something incomplete.  Only straight to the service: the
+		// strategies' handling of such answers is not this property's subject, behind one the node fails.
+		if n.h.strategy {
+			return nil, errors.New("scripted node failure (incomplete answer)")
+		}
+		a := c01AttData(c01GoodData(r.duty, n.h.s.slotsPerEpoch, 1))
+		switch st.Inc {
+		case 1:
+			a = nil
+		case 2:
+			a.Source = nil
+		default:
+			a.Target = nil
+		}
+		return &api.Response[*phase0.AttestationData]{Data: a, Metadata: map[string]any{}}, nil
 	}
 	return &api.Response[*phase0.AttestationData]{Data: c01AttData(d), Metadata: map[string]any{}}, nil
 }
@@ -332,11 +368,18 @@ func (p *c01Tap) AttestationData(ctx context.Context, opts *api.AttestationDataO
 	resp, err := p.inner.AttestationData(ctx, opts)
 	p.h.emit(r, "Fetch", func(e verifsupport.Ev) {
 		e["reqslot"] = uint64(opts.Slot)
-		if err != nil || resp == nil || resp.Data == nil || resp.Data.Source == nil || resp.Data.Target == nil {
+		if err != nil || resp == nil {
 			e["err"] = true
 			if err == nil {
-				err = errors.New("no data")
+				err = errors.New("no response")
 			}
+			return
+		}
+		if resp.Data == nil || resp.Data.Source == nil || resp.Data.Target == nil {
+			// an answer without data / source / target is handed to the service as it is: data that does
+			// not meet the rule
+			e["err"] = false
+			e["data"] = c01DataEv(c01IncSlot, c01IncSlot, c01IncSlot, 0)
 			return
 		}
 		a := resp.Data
@@ -404,7 +447,16 @@ func (p *c01Accounts) ValidatingAccountsForEpochByIndex(ctx context.Context, epo
 		e["accts"] = got
 	})
 	if fail {
-		return nil, errors.New("scripted account manager failure")
+		return nil, c01Err(st, "scripted account manager failure")
+	}
+	if len(res) == 0 {
+		// nobody: an empty map or none at all (seeded)
+		p.h.mu.Lock()
+		none := p.h.rnd.Intn(2) == 0
+		p.h.mu.Unlock()
+		if none {
+			return nil, nil
+		}
 	}
 	return res, nil
 }
@@ -479,7 +531,20 @@ func (p *c01Signer) SignBeaconAttestations(ctx context.Context, accounts []e2wty
 		e["data"] = c01DataEv(uint64(slot), uint64(sourceEpoch), uint64(targetEpoch), root)
 	})
 	if fail {
-		return nil, errors.New("scripted signer failure")
+		return nil, c01Err(st, "scripted signer failure")
+	}
+	// a partial result: the signer may leave the unsigned tail out instead of returning zero signatures (seeded)
+	last := len(sigs)
+	for last > 0 && sigs[last-1].IsZero() {
+		last--
+	}
+	if last < len(sigs) {
+		p.h.mu.Lock()
+		short := p.h.rnd.Intn(2) == 0
+		p.h.mu.Unlock()
+		if short {
+			sigs = sigs[:last]
+		}
 	}
 	return sigs, nil
 }
@@ -528,7 +593,7 @@ func (p *c01Submitter) SubmitAttestations(ctx context.Context, attestations []*p
 		e["atts"] = read()
 	})
 	if fail {
-		return errors.New("scripted submitter failure")
+		return c01Err(st, "scripted submitter failure")
 	}
 	return nil
 }
@@ -537,7 +602,7 @@ func (p *c01Submitter) SubmitAttestations(ctx context.Context, attestations []*p
 
 func c01NewHarness(t *testing.T, tr *verifsupport.Trace, sc *c01Scenario, spe uint64) *c01Harness {
 	ctx := context.Background()
-	h := &c01Harness{t: t, tr: tr, sc: sc.Sc, gated: sc.Mode != "free", runs: map[int]*c01Run{},
+	h := &c01Harness{t: t, tr: tr, sc: sc.Sc, gated: sc.Mode != "free", strategy: sc.Strategy != "", runs: map[int]*c01Run{},
 		rnd: rand.New(rand.NewSource(verifsupport.Seed()*1000003 + int64(sc.Sc)))}
 	ct := verifsupport.NewChainTime(spe, 12*time.Second)
 	var provider eth2client.AttestationDataProvider = &c01Node{h: h, name: "n1"}
